@@ -45,9 +45,9 @@ pub fn spec(prop: &str) -> Option<PropSpec> {
         "C01" => s("C01", "exploration", 60000, 1500000, &["probe.child_delivered_before_parent", "probe.block_before_pack", "probe.meld_items"], &["probe.pair_compared"],
             "seeded multi-replica histories (update/commit/meld/refresh/resolve/unstage/time travel, file-by-file transport with drop/dup/reorder/partition); non-trivial = two replicas with equal item sets were compared AND items travelled (meld or out-of-causal-order file delivery); distinct = distinct op/fault sequence hash",
             &["probe.pair_compared", "probe.converge", "probe.child_delivered_before_parent", "probe.block_before_pack", "probe.reopen_compared", "probe.conflict_at_sync", "probe.array_in_conflict_at_sync"]),
-        "C02" => s("C02", "exploration", 100000, 1500000, &["probe.block_held_back"], &["probe.ref_compared"],
-            "histories in which single block/pack files are delivered one at a time in seeded (biased) orders with a refresh after deliveries; non-trivial = at least one block was observed held back at a sync point; distinct = distinct op/fault sequence hash",
-            &["probe.block_held_back", "probe.held_back_depth_ge_2", "probe.child_delivered_before_parent", "probe.block_before_pack", "probe.deliver_duplicate"]),
+        "C02" => s("C02", "exploration", 60000, 1200000, &["probe.block_held_back"], &["probe.ref_compared"],
+            "histories in which single block/pack files are delivered one at a time in seeded (biased) orders with a refresh after deliveries; in a quarter of the runs (thorough: all) the newest 4 (thorough: 5) files of the richest store are additionally delivered in ALL k! orders to a replica holding the rest, refresh and comparison after every file; non-trivial = at least one block was observed held back at a sync point; distinct = distinct op/fault sequence hash",
+            &["probe.block_held_back", "probe.held_back_depth_ge_2", "probe.child_delivered_before_parent", "probe.block_before_pack", "probe.deliver_duplicate", "enum.c02_permutations", "enum.c02_prefixes"]),
         "C03" => s("C03", "exploration", 100000, 1500000, &["probe.reopen_compared"], &["probe.commit_ok"],
             "histories with nasty JSON content and 1..n staged operations between commits; after every successful commit a second replica is opened on the same storage and compared; non-trivial = at least one commit was compared with a fresh open; distinct = distinct op sequence hash",
             &["probe.reopen_compared", "probe.objop"]),
@@ -81,9 +81,9 @@ pub fn spec(prop: &str) -> Option<PropSpec> {
         "C08" => s("C08", "exploration", 100000, 1500000, &["probe.commit_with_array_conflict", "probe.commit_with_object_conflict", "probe.resolve", "probe.snapshot"], &[],
             "every public call under catch_unwind with the lock shim; non-trivial = operations ran in conflicted states; distinct = distinct op sequence hash",
             &["probe.commit_with_array_conflict", "probe.commit_with_object_conflict", "probe.resolve_array", "probe.refresh_with_stage", "probe.reload_until"]),
-        "C07" => s("C07", "exploration", 100000, 1500000, &["probe.resolve"], &[],
-            "conflicted states reached by concurrent edits; resolve_as for a seeded leaf; propagation by Converge; non-trivial = at least one resolution ran; distinct = distinct op sequence hash",
-            &["probe.resolve", "probe.resolve_array", "probe.resolve_to_deletion", "probe.resolve_3plus_leaves", "probe.converge"]),
+        "C07" => s("C07", "exploration", 30000, 600000, &["probe.resolve"], &[],
+            "conflicted states reached by concurrent edits; resolve_as for a seeded leaf, and for histories that END in a conflicted state one fork per (object, live leaf) — every choosable leaf — with commit and Converge; propagation by Converge; non-trivial = at least one resolution ran; distinct = distinct op sequence hash",
+            &["probe.resolve", "probe.resolve_array", "probe.resolve_to_deletion", "probe.resolve_3plus_leaves", "probe.converge", "enum.c07_leaf_forks"]),
         "C06" => s("C06", "exploration", 100000, 1500000, &["probe.array_merge_checked"], &[],
             "concurrent array edits on 2-4 replicas followed by synchronisation; constraints (1)-(5) of DESIGN 5.6 evaluated on read; non-trivial = at least one array with >= 2 live leaves was checked; distinct = distinct op sequence hash",
             &["probe.array_merge_checked"]),
